@@ -184,49 +184,7 @@ func runC11(p *Prog, r *Report) {
 		r.Check(okW, "early.could-not-run-kind", "R-WIRE", p.InstrPos(dones[0]), "marked with *couldNotRunError", "cases that could not be sent are not marked with a couldNotRunError (report would count them as ordinary failures, not as not-run)")
 	}
 
-	// ---- tail order ----
-	frs := findInstrs(rts, isFR)
-	r.Sites++
-	if len(frs) != 1 {
-		r.Fail("tail.order", "R-ORDER", p.Pos(rts.Pos()), fmt.Sprintf("expected one failRemaining(testCases, …) call, found %d", len(frs)))
-	} else {
-		fr := frs[0]
-		isWait := func(in ssa.Instruction) bool {
-			c := callCommon(in)
-			if c == nil {
-				return false
-			}
-			f := c.StaticCallee()
-			return f != nil && f.Name() == "Wait" && f.Pkg != nil && f.Pkg.Pkg.Path() == "sync"
-		}
-		isAbort := func(in ssa.Instruction) bool {
-			_, isDefer := in.(*ssa.Defer)
-			return !isDefer && isCallToNamed(callCommon(in), ccPath, "processController", "abort")
-		}
-		isResult := func(in ssa.Instruction) bool { return isCallToNamed(callCommon(in), ccPath, "processController", "result") }
-		ok := precededBy(fr, isWait) && precededBy(fr, isAbort) && precededBy(fr, isResult)
-		// abort before result
-		for _, res := range findInstrs(rts, isResult) {
-			if !precededBy(res, isAbort) {
-				ok = false
-			}
-		}
-		r.Check(ok, "tail.order", "R-ORDER", p.InstrPos(fr), "wg.Wait → abort → result → failRemaining on every path", "failRemaining is not preceded on every path by wg.Wait, abort and an unconditional wait for the server's result: the --max-servers permit could be released while the server is alive, or remaining cases be failed while answers are outstanding")
-		// join of the stderr reader
-		joined := false
-		eachInstr(rts, func(in ssa.Instruction) {
-			if u, ok := in.(*ssa.UnOp); ok && u.Op == token.ARROW {
-				if guardedBy(in, func(a Atom) bool {
-					m, v := boolTestOn(a, func(x ssa.Value) bool { prm, ok := x.(*ssa.Parameter); return ok && prm.Name() == "isReferenceServer" })
-					return m && v
-				}) && reachesInstr(in, fr) && !reachesInstr(fr, in) {
-					joined = true
-				}
-			}
-		})
-		r.Sites++
-		r.Check(joined, "tail.join-stderr", "R-ORDER", p.InstrPos(fr), "the stderr reader goroutine is joined before failRemaining", "the reference server's stderr reader is not joined before the batch ends: late feedback lines could be lost")
-	}
+	tailRules(p, r, rts, isFR)
 
 	// ---- tls ----
 	pem := p.Field(pkgGen, "ServerCompatResponse", "PemCert")
@@ -273,107 +231,7 @@ func runC11(p *Prog, r *Report) {
 		r.Check(ok, "keep", "R-GUARD", p.Pos(fr.Pos()), "failRemaining writes (as setup error) only on the no-outcome-yet edge", "failRemaining can overwrite an existing outcome (or does not mark as setup error): cases already answered would lose their own verdict")
 	}
 
-	// ---- sideband ----
-	var sb *ssa.Function
-	recSB := p.TypeFunc(pkgCC, "testResults", "recordSideband")
-	for _, a := range rts.AnonFuncs {
-		if len(findInstrs(a, isCallObj(recSB))) > 0 && len(findInstrs(a, func(in ssa.Instruction) bool {
-			c := callCommon(in)
-			return c != nil && c.StaticCallee() != nil && c.StaticCallee().Name() == "ReadString"
-		})) > 0 {
-			sb = a
-		}
-	}
-	if sb == nil {
-		r.Undecided("sideband", "R-GUARD", "stderr reader goroutine not found")
-	} else {
-		r.Func(funcName(sb))
-		var split *ssa.Call
-		eachInstr(sb, func(in ssa.Instruction) {
-			if c, ok := in.(*ssa.Call); ok {
-				if f := c.Call.StaticCallee(); f != nil && f.Pkg != nil && f.Pkg.Pkg.Path() == "strings" && (f.Name() == "Split" || f.Name() == "SplitN" || f.Name() == "Cut") {
-					split = c
-				}
-			}
-		})
-		r.Sites++
-		okSplit := false
-		if split != nil && split.Call.StaticCallee().Name() == "SplitN" {
-			sep, isS := constString(split.Call.Args[1])
-			k, isK := constInt(split.Call.Args[2])
-			okSplit = isS && sep == ": " && isK && k == 2
-		}
-		r.Check(okSplit, "sideband.split", "R-WIRE", p.Pos(sb.Pos()), `strings.SplitN(line, ": ", 2)`, `a stderr line is not split at the FIRST ": " into at most two parts: a feedback message that itself contains ": " would not be recognised and the case would pass`)
-		var readCall *ssa.Call
-		eachInstr(sb, func(in ssa.Instruction) {
-			if c, ok := in.(*ssa.Call); ok && c.Call.StaticCallee() != nil && c.Call.StaticCallee().Name() == "ReadString" {
-				readCall = c
-			}
-		})
-		readErrNil := func(a Atom) bool {
-			m, isNil := nilTestOn(a, func(v ssa.Value) bool {
-				ex, ok := v.(*ssa.Extract)
-				return ok && readCall != nil && ex.Tuple == ssa.Value(readCall) && ex.Index == 1
-			})
-			return m && isNil
-		}
-		for _, c := range findInstrs(sb, isCallObj(recSB)) {
-			r.Sites++
-			cc := callCommon(c)
-			as := atomsAt(c.Block())
-			two := hasAtom(as, func(a Atom) bool {
-				if a.Op != token.EQL {
-					return false
-				}
-				k, isK := constInt(a.Y)
-				x, isLen := lenArg(a.X)
-				return isK && k == 2 && isLen && split != nil && canon(x) == ssa.Value(split)
-			})
-			hit := hasAtom(as, func(a Atom) bool {
-				m, v := boolTestOn(a, func(x ssa.Value) bool {
-					ex, ok := x.(*ssa.Extract)
-					if !ok || ex.Index != 1 {
-						return false
-					}
-					lk, ok := ex.Tuple.(*ssa.Lookup)
-					return ok && lk.CommaOk
-				})
-				return m && v
-			})
-			partIdx := func(v ssa.Value) int64 {
-				if u, ok := v.(*ssa.UnOp); ok {
-					if ia, ok := u.X.(*ssa.IndexAddr); ok && split != nil && canon(ia.X) == ssa.Value(split) {
-						if k, isK := constInt(ia.Index); isK {
-							return k
-						}
-					}
-				}
-				return -1
-			}
-			r.Check(two && hit && partIdx(cc.Args[1]) == 0 && partIdx(cc.Args[2]) == 1, "sideband.attribute", "R-GUARD", p.InstrPos(c), "recordSideband(parts[0], parts[1]) on (len(parts) == 2 ∧ parts[0] is a test name of the batch)",
-				"feedback is not attributed exactly as recordSideband(parts[0], parts[1]) under (two parts ∧ first part names a case of this batch)")
-			r.Check(!hasAtom(as, readErrNil), "sideband.last-line", "R-GUARD", p.InstrPos(c), "the line is processed before the read error is examined", "a stderr line is only processed when the read returned no error: the last line of a dying server (EOF without newline) would be dropped, and with it the feedback that should fail the case")
-		}
-		fw := 0
-		eachInstr(sb, func(in ssa.Instruction) {
-			c := callCommon(in)
-			if c == nil || !c.IsInvoke() || c.Method.Name() != "PrefixPrintf" {
-				return
-			}
-			fw++
-			r.Sites++
-			as := atomsAt(in.Block())
-			nonBlank := hasAtom(as, func(a Atom) bool {
-				if a.Op != token.NEQ {
-					return false
-				}
-				s, isS := constString(a.Y)
-				return isS && s == ""
-			})
-			r.Check(nonBlank && !hasAtom(as, readErrNil), "sideband.forward", "R-GUARD", p.InstrPos(in), "non-blank, unattributed lines are forwarded (also the last one)", "other stderr output of the server is not forwarded for every non-blank line")
-		})
-		r.Floor("forward-sites", fw, 1)
-	}
+	sidebandRules(p, r, rts)
 
 	// ---- abort ----
 	ab := p.Func(pkgCC, "cmdProcess", "abort")
@@ -476,4 +334,159 @@ func markedInLoopBefore(ret *ssa.Return, setOutcome *types.Func) bool {
 		}
 	}
 	return false
+}
+
+// sidebandRules: attribution of reference-server stderr lines (shared by C04
+// and C11: peer feedback must turn a matching result into a failure).
+func sidebandRules(p *Prog, r *Report, rts *ssa.Function) {
+	// ---- sideband ----
+	var sb *ssa.Function
+	recSB := p.TypeFunc(pkgCC, "testResults", "recordSideband")
+	for _, a := range rts.AnonFuncs {
+		if len(findInstrs(a, isCallObj(recSB))) > 0 && len(findInstrs(a, func(in ssa.Instruction) bool {
+			c := callCommon(in)
+			return c != nil && c.StaticCallee() != nil && c.StaticCallee().Name() == "ReadString"
+		})) > 0 {
+			sb = a
+		}
+	}
+	if sb == nil {
+		r.Undecided("sideband", "R-GUARD", "stderr reader goroutine not found")
+	} else {
+		r.Func(funcName(sb))
+		var split *ssa.Call
+		eachInstr(sb, func(in ssa.Instruction) {
+			if c, ok := in.(*ssa.Call); ok {
+				if f := c.Call.StaticCallee(); f != nil && f.Pkg != nil && f.Pkg.Pkg.Path() == "strings" && (f.Name() == "Split" || f.Name() == "SplitN" || f.Name() == "Cut") {
+					split = c
+				}
+			}
+		})
+		r.Sites++
+		okSplit := false
+		if split != nil && split.Call.StaticCallee().Name() == "SplitN" {
+			sep, isS := constString(split.Call.Args[1])
+			k, isK := constInt(split.Call.Args[2])
+			okSplit = isS && sep == ": " && isK && k == 2
+		}
+		r.Check(okSplit, "sideband.split", "R-WIRE", p.Pos(sb.Pos()), `strings.SplitN(line, ": ", 2)`, `a stderr line is not split at the FIRST ": " into at most two parts: a feedback message that itself contains ": " would not be recognised and the case would pass`)
+		var readCall *ssa.Call
+		eachInstr(sb, func(in ssa.Instruction) {
+			if c, ok := in.(*ssa.Call); ok && c.Call.StaticCallee() != nil && c.Call.StaticCallee().Name() == "ReadString" {
+				readCall = c
+			}
+		})
+		readErrNil := func(a Atom) bool {
+			m, isNil := nilTestOn(a, func(v ssa.Value) bool {
+				ex, ok := v.(*ssa.Extract)
+				return ok && readCall != nil && ex.Tuple == ssa.Value(readCall) && ex.Index == 1
+			})
+			return m && isNil
+		}
+		for _, c := range findInstrs(sb, isCallObj(recSB)) {
+			r.Sites++
+			cc := callCommon(c)
+			as := atomsAt(c.Block())
+			two := hasAtom(as, func(a Atom) bool {
+				if a.Op != token.EQL {
+					return false
+				}
+				k, isK := constInt(a.Y)
+				x, isLen := lenArg(a.X)
+				return isK && k == 2 && isLen && split != nil && canon(x) == ssa.Value(split)
+			})
+			hit := hasAtom(as, func(a Atom) bool {
+				m, v := boolTestOn(a, func(x ssa.Value) bool {
+					ex, ok := x.(*ssa.Extract)
+					if !ok || ex.Index != 1 {
+						return false
+					}
+					lk, ok := ex.Tuple.(*ssa.Lookup)
+					return ok && lk.CommaOk
+				})
+				return m && v
+			})
+			partIdx := func(v ssa.Value) int64 {
+				if u, ok := v.(*ssa.UnOp); ok {
+					if ia, ok := u.X.(*ssa.IndexAddr); ok && split != nil && canon(ia.X) == ssa.Value(split) {
+						if k, isK := constInt(ia.Index); isK {
+							return k
+						}
+					}
+				}
+				return -1
+			}
+			r.Check(two && hit && partIdx(cc.Args[1]) == 0 && partIdx(cc.Args[2]) == 1, "sideband.attribute", "R-GUARD", p.InstrPos(c), "recordSideband(parts[0], parts[1]) on (len(parts) == 2 ∧ parts[0] is a test name of the batch)",
+				"feedback is not attributed exactly as recordSideband(parts[0], parts[1]) under (two parts ∧ first part names a case of this batch)")
+			r.Check(!hasAtom(as, readErrNil), "sideband.last-line", "R-GUARD", p.InstrPos(c), "the line is processed before the read error is examined", "a stderr line is only processed when the read returned no error: the last line of a dying server (EOF without newline) would be dropped, and with it the feedback that should fail the case")
+		}
+		fw := 0
+		eachInstr(sb, func(in ssa.Instruction) {
+			c := callCommon(in)
+			if c == nil || !c.IsInvoke() || c.Method.Name() != "PrefixPrintf" {
+				return
+			}
+			fw++
+			r.Sites++
+			as := atomsAt(in.Block())
+			nonBlank := hasAtom(as, func(a Atom) bool {
+				if a.Op != token.NEQ {
+					return false
+				}
+				s, isS := constString(a.Y)
+				return isS && s == ""
+			})
+			r.Check(nonBlank && !hasAtom(as, readErrNil), "sideband.forward", "R-GUARD", p.InstrPos(in), "non-blank, unattributed lines are forwarded (also the last one)", "other stderr output of the server is not forwarded for every non-blank line")
+		})
+		r.Floor("forward-sites", fw, 1)
+	}
+
+}
+
+// tailRules: the common tail of a batch (shared by C05 and C11).
+func tailRules(p *Prog, r *Report, rts *ssa.Function, isFR instrPred) {
+	// ---- tail order ----
+	frs := findInstrs(rts, isFR)
+	r.Sites++
+	if len(frs) != 1 {
+		r.Fail("tail.order", "R-ORDER", p.Pos(rts.Pos()), fmt.Sprintf("expected one failRemaining(testCases, …) call, found %d", len(frs)))
+	} else {
+		fr := frs[0]
+		isWait := func(in ssa.Instruction) bool {
+			c := callCommon(in)
+			if c == nil {
+				return false
+			}
+			f := c.StaticCallee()
+			return f != nil && f.Name() == "Wait" && f.Pkg != nil && f.Pkg.Pkg.Path() == "sync"
+		}
+		isAbort := func(in ssa.Instruction) bool {
+			_, isDefer := in.(*ssa.Defer)
+			return !isDefer && isCallToNamed(callCommon(in), ccPath, "processController", "abort")
+		}
+		isResult := func(in ssa.Instruction) bool { return isCallToNamed(callCommon(in), ccPath, "processController", "result") }
+		ok := precededBy(fr, isWait) && precededBy(fr, isAbort) && precededBy(fr, isResult)
+		// abort before result
+		for _, res := range findInstrs(rts, isResult) {
+			if !precededBy(res, isAbort) {
+				ok = false
+			}
+		}
+		r.Check(ok, "tail.order", "R-ORDER", p.InstrPos(fr), "wg.Wait → abort → result → failRemaining on every path", "failRemaining is not preceded on every path by wg.Wait, abort and an unconditional wait for the server's result: the --max-servers permit could be released while the server is alive, or remaining cases be failed while answers are outstanding")
+		// join of the stderr reader
+		joined := false
+		eachInstr(rts, func(in ssa.Instruction) {
+			if u, ok := in.(*ssa.UnOp); ok && u.Op == token.ARROW {
+				if guardedBy(in, func(a Atom) bool {
+					m, v := boolTestOn(a, func(x ssa.Value) bool { prm, ok := x.(*ssa.Parameter); return ok && prm.Name() == "isReferenceServer" })
+					return m && v
+				}) && reachesInstr(in, fr) && !reachesInstr(fr, in) {
+					joined = true
+				}
+			}
+		})
+		r.Sites++
+		r.Check(joined, "tail.join-stderr", "R-ORDER", p.InstrPos(fr), "the stderr reader goroutine is joined before failRemaining", "the reference server's stderr reader is not joined before the batch ends: late feedback lines could be lost")
+	}
+
 }
